@@ -190,6 +190,33 @@ func returnedUnder(fn *ssa.Function, idx int, val map[string]int64) []ssa.Value 
 	return out
 }
 
+// valuesUnder: the values v can stand for under the valuation: a merged variable (phi) contributes the incoming
+// values of the edges actually taken (path-sensitive).
+func valuesUnder(fn *ssa.Function, v ssa.Value, val map[string]int64) []ssa.Value {
+	reach := psReachVal(fn, []*ssa.BasicBlock{fn.Blocks[0]}, nil, val)
+	edges := lastPsEdges
+	var out []ssa.Value
+	seen := map[ssa.Value]bool{}
+	var expand func(x ssa.Value, d int)
+	expand = func(x ssa.Value, d int) {
+		if ph, isPhi := x.(*ssa.Phi); isPhi && d < 4 {
+			b := ph.Block()
+			for i, e := range ph.Edges {
+				if reach[b.Preds[i]] && edges[[2]*ssa.BasicBlock{b.Preds[i], b}] {
+					expand(e, d+1)
+				}
+			}
+			return
+		}
+		if !seen[x] {
+			seen[x] = true
+			out = append(out, x)
+		}
+	}
+	expand(v, 0)
+	return out
+}
+
 // acceptsUnder: some success return of fn is reachable under the valuation (path-sensitive).
 func acceptsUnder(fn *ssa.Function, val map[string]int64) bool {
 	a, _ := returnOutcomes(fn, val)
